@@ -25,6 +25,7 @@ def main():
     ap.add_argument('--count', type=int, default=1)
     ap.add_argument('--patch')
     ap.add_argument('--only')
+    ap.add_argument('--timeout', type=int, default=None)
     a = ap.parse_args()
     d = tempfile.mkdtemp(prefix='ddmut')
     try:
@@ -48,7 +49,12 @@ def main():
         cmd = [os.path.join(HERE, 'bin/check'), a.pid, '--tier', a.tier]
         if a.only:
             cmd += ['--only', a.only]
-        r = subprocess.run(cmd, env=env, capture_output=True, text=True)
+        try:
+            r = subprocess.run(cmd, env=env, capture_output=True, text=True, timeout=a.timeout)
+        except subprocess.TimeoutExpired:
+            subprocess.run("pkill -9 -f 'symdd[.]check " + a.pid + "'", shell=True)
+            print('EXIT timeout')
+            return
         lines = r.stdout.strip().splitlines()
         for l in lines[-14:]:
             print(l[:400])
